@@ -1,5 +1,6 @@
 import Sx.Sys
 import Sx.Model.DebugTool
+import Sx.Model.Backend
 /-
   `sxmodel`: executes an operation script (the line protocol of harness/sxh.c) on the Lean model
   in closed loop with the Lean chip model and prints the same trace lines the C harness prints.
@@ -250,6 +251,23 @@ def stepLine (s : St) (line : String) : St × Option String :=
         | _ => { s with onCad := r }
       (s, some "oncb")
     else if name = "dump" then (s, some (dumpChip s.sys.world.chip))
+    else if name = "bk" then
+      -- C19, backend half: `bk <lin|esp> <rr|rb|wr|wb> <reg> <n> <fail> <garbage> <hex>`; for reads <hex> is
+      -- what the chip shifts out after the address byte, for writes the caller's data (n = its length)
+      let a := arg rest
+      let reg := parseNat (a 2)
+      let n := parseNat (a 3)
+      let bytes := parseBytes (a 6)
+      let w : Backend.Wire := { fail := parseInt (a 4), garbage := parseU8 (a 5), miso := bytes }
+      let lin := a 0 = "lin"
+      let o : Backend.Out := match a 1 with
+        | "rr" => if lin then Backend.linReadRegisters reg n w else Backend.espReadRegisters reg n w
+        | "rb" => if lin then Backend.linReadBuffer reg n w else Backend.espReadBuffer reg n w
+        | "wr" => if lin then Backend.linWriteRegister reg bytes { w with miso := [] } else Backend.espWriteRegister reg bytes { w with miso := [] }
+        | _ => if lin then Backend.linWriteBuffer reg bytes { w with miso := [] } else Backend.espWriteBuffer reg bytes { w with miso := [] }
+      let word := match o.word with | some v => hex8 (UInt32.ofNat v) | none => "-"
+      let buf := match o.buf with | some (b :: bs) => hexBytes (b :: bs) | _ => "-"
+      (s, some s!"bk {a 0} {a 1} rc={o.rc} frames={String.intercalate "|" (o.frames.map hexBytes)} word={word} buf={buf}")
     else if name = "parse" ∨ name = "tool" then
       -- C20: the argument of debug_registers, given as the hex of its bytes (`-` = empty)
       let hx := rest.headD "-"
